@@ -41,6 +41,31 @@ pub unsafe extern "C" fn bcmp(a: *const u8, b: *const u8, n: usize) -> i32 {
     0
 }
 
+/// A logger that accepts every record and formats it into a byte counter (no allocation, content-independent):
+/// with it installed and the level at Trace, the library's log macros evaluate their arguments, so that work is
+/// part of the traced instruction sequence too.
+struct CountLogger;
+struct CountWriter(usize);
+impl std::fmt::Write for CountWriter {
+    fn write_str(&mut self, s: &str) -> std::fmt::Result {
+        self.0 = self.0.wrapping_add(s.len());
+        Ok(())
+    }
+}
+static LOGGED_BYTES: std::sync::atomic::AtomicUsize = std::sync::atomic::AtomicUsize::new(0);
+impl log::Log for CountLogger {
+    fn enabled(&self, _m: &log::Metadata) -> bool {
+        true
+    }
+    fn log(&self, r: &log::Record) {
+        let mut w = CountWriter(0);
+        let _ = std::fmt::write(&mut w, *r.args());
+        LOGGED_BYTES.fetch_add(w.0, std::sync::atomic::Ordering::Relaxed);
+    }
+    fn flush(&self) {}
+}
+static COUNT_LOGGER: CountLogger = CountLogger;
+
 #[derive(Clone, Copy, Debug, PartialEq, Eq)]
 #[repr(C)]
 struct Trace {
@@ -66,8 +91,13 @@ fn control_compare(a: &[u8], b: &[u8]) -> bool {
 }
 
 /// Run in the forked child: everything up to the first stop is set-up and not traced.
-fn child_body(case: &Case, expected_sig: &str, presented: &str, mode: Mode) -> ! {
+fn child_body(case: &Case, expected_sig: &str, presented: &str, mode: Mode, log_trace: bool) -> ! {
     unsafe {
+        log::set_max_level(if log_trace {
+            log::LevelFilter::Trace
+        } else {
+            log::LevelFilter::Off
+        });
         let req = build_request(&case.wire);
         let mut prov = Prov::new(case.script.clone());
         let a = presented.as_bytes().to_vec();
@@ -100,7 +130,7 @@ fn child_body(case: &Case, expected_sig: &str, presented: &str, mode: Mode) -> !
 }
 
 /// Fork a child for this probe and single-step it between its two SIGSTOPs.
-fn trace_one(case: &Case, expected_sig: &str, presented: &str, mode: Mode) -> Trace {
+fn trace_one(case: &Case, expected_sig: &str, presented: &str, mode: Mode, log_trace: bool) -> Trace {
     unsafe {
         let pid = libc::fork();
         if pid < 0 {
@@ -111,7 +141,7 @@ fn trace_one(case: &Case, expected_sig: &str, presented: &str, mode: Mode) -> Tr
             };
         }
         if pid == 0 {
-            child_body(case, expected_sig, presented, mode);
+            child_body(case, expected_sig, presented, mode, log_trace);
         }
         let mut status: i32 = 0;
         // first stop
@@ -191,6 +221,8 @@ struct Probe {
     mode: Mode,
     /// position of the first wrong character (64 = none wrong)
     first_wrong: usize,
+    /// run with a logger installed and the level at Trace
+    log_trace: bool,
 }
 
 fn same_class_other(r: &mut Rng, c: u8) -> u8 {
@@ -289,6 +321,7 @@ fn make_probes(seed: u64, reqs: &[Req], positions: &[usize], multi: usize) -> Ve
                 presented: String::from_utf8(s).unwrap(),
                 mode: Mode::Validate,
                 first_wrong: p,
+                log_trace: false,
             });
         }
         // all characters wrong, and random multi-position variants
@@ -299,6 +332,7 @@ fn make_probes(seed: u64, reqs: &[Req], positions: &[usize], multi: usize) -> Ve
             presented: String::from_utf8(all).unwrap(),
             mode: Mode::Validate,
             first_wrong: 0,
+            log_trace: false,
         });
         for m in 0..multi {
             let mut s = q.sig.clone().into_bytes();
@@ -319,6 +353,7 @@ fn make_probes(seed: u64, reqs: &[Req], positions: &[usize], multi: usize) -> Ve
                 presented: String::from_utf8(s).unwrap(),
                 mode: Mode::Validate,
                 first_wrong: first,
+                log_trace: false,
             });
         }
         // determinism control: the same probe again
@@ -330,6 +365,7 @@ fn make_probes(seed: u64, reqs: &[Req], positions: &[usize], multi: usize) -> Ve
             presented: v.iter().find(|p| p.request == k && p.first_wrong == positions[0]).map(|p| p.presented.clone()).unwrap_or_else(|| String::from_utf8(s).unwrap()),
             mode: Mode::Validate,
             first_wrong: positions[0],
+            log_trace: false,
         });
         // the correct signature (success path; traced, excluded from the comparison)
         v.push(Probe {
@@ -338,6 +374,7 @@ fn make_probes(seed: u64, reqs: &[Req], positions: &[usize], multi: usize) -> Ve
             presented: q.sig.clone(),
             mode: Mode::Validate,
             first_wrong: 64,
+            log_trace: false,
         });
         // sensitivity control: harness-local `==` over the same inputs
         for p in [0usize, 31, 63] {
@@ -349,8 +386,21 @@ fn make_probes(seed: u64, reqs: &[Req], positions: &[usize], multi: usize) -> Ve
                 presented: String::from_utf8(s).unwrap(),
                 mode: Mode::ControlCompare,
                 first_wrong: p,
+                log_trace: false,
             });
         }
+        // the same position probes once more with a logger installed and the level at Trace: log macros then
+        // evaluate their arguments, and that work must be position-independent as well
+        let twins: Vec<Probe> = v
+            .iter()
+            .filter(|p| p.request == k && p.mode == Mode::Validate && (p.label.starts_with("wrong-at-") || p.label == "all-wrong"))
+            .map(|p| Probe {
+                label: format!("{}+trace-logging", p.label),
+                log_trace: true,
+                ..p.clone()
+            })
+            .collect();
+        v.extend(twins);
     }
     v
 }
@@ -359,6 +409,10 @@ fn make_probes(seed: u64, reqs: &[Req], positions: &[usize], multi: usize) -> Ve
 fn trace_all(seed: u64, reqs: &[Req], probes: &[Probe], workers: usize) -> Vec<Trace> {
     // warm every lazily initialised global with full validations (success and refusal)
     for (k, q) in reqs.iter().enumerate() {
+        log::set_max_level(log::LevelFilter::Trace);
+        let _ = sv::exec::execute(&case_with_sig(q, seed, k, &q.sig));
+        let _ = sv::exec::execute(&case_with_sig(q, seed, k, &"0".repeat(64)));
+        log::set_max_level(log::LevelFilter::Off);
         let ok = sv::exec::execute(&case_with_sig(q, seed, k, &q.sig));
         let bad = sv::exec::execute(&case_with_sig(q, seed, k, &"0".repeat(64)));
         if !ok.outcome.is_ok() || bad.outcome.is_ok() {
@@ -390,7 +444,7 @@ fn trace_all(seed: u64, reqs: &[Req], probes: &[Probe], workers: usize) -> Vec<T
                 libc::close(fds[0]);
                 let mut i = w;
                 while i < probes.len() {
-                    let t = trace_one(&cases[i], &reqs[probes[i].request].sig, &probes[i].presented, probes[i].mode);
+                    let t = trace_one(&cases[i], &reqs[probes[i].request].sig, &probes[i].presented, probes[i].mode, probes[i].log_trace);
                     let rec: [u64; 4] = [i as u64, t.steps, t.hash, t.ok];
                     libc::write(fds[1], rec.as_ptr() as *const libc::c_void, 32);
                     i += workers;
@@ -465,17 +519,33 @@ fn analyse(reqs: &[Req], probes: &[Probe], traces: &[Trace], profile: &str) -> S
             }
             None => {}
         }
-        // the property: all wrong signatures of the right length and class ⇒ identical (count, hash)
-        let wrong: Vec<usize> = mine.iter().copied().filter(|i| probes[*i].mode == Mode::Validate && probes[*i].first_wrong < 64).collect();
-        let base = traces[wrong[0]];
+        // the property: all wrong signatures of the right length and class ⇒ identical (count, hash), separately with
+        // logging off and with a trace-level logger installed
         let mut differing: Vec<(usize, Trace)> = Vec::new();
-        for &i in &wrong {
-            if traces[i] != base {
-                differing.push((i, traces[i]));
+        let mut wrong: Vec<usize> = Vec::new();
+        let mut base = traces[mine[0]];
+        for logging in [false, true] {
+            let group: Vec<usize> = mine.iter().copied().filter(|i| probes[*i].mode == Mode::Validate && probes[*i].first_wrong < 64 && probes[*i].log_trace == logging).collect();
+            if group.is_empty() {
+                continue;
             }
-            t.nontrivial(sv::prng::fnv64(format!("{}|{}|{}", profile, k, probes[i].presented).as_bytes()));
+            let b = traces[group[0]];
+            if !logging {
+                base = b;
+            }
+            for &i in &group {
+                if traces[i] != b {
+                    differing.push((i, traces[i]));
+                }
+                t.nontrivial(sv::prng::fnv64(format!("{}|{}|{}|{}", profile, k, probes[i].presented, logging).as_bytes()));
+            }
+            t.add(if logging { "wrong_signature_traces_compared_with_trace_logging" } else { "wrong_signature_traces_compared" }, group.len() as u64);
+            if logging && b == base {
+                t.inconclusive.push(format!("[{}] trace-logging control failed: traces with a trace-level logger equal those without (log macros not evaluated?)", profile));
+                controls_ok = false;
+            }
+            wrong.extend(group);
         }
-        t.add("wrong_signature_traces_compared", wrong.len() as u64);
         if let Some(c) = mine.iter().find(|i| probes[**i].label == "correct") {
             t.count("success_path_traced");
             if traces[*c] == base {
@@ -493,9 +563,9 @@ fn analyse(reqs: &[Req], probes: &[Probe], traces: &[Trace], profile: &str) -> S
                 .set("control_eq_steps_for_first_difference_at_0_31_63", J::Arr(ctl_steps.iter().map(|s| J::i(*s as i64)).collect()))
         });
         if !differing.is_empty() && controls_ok {
-            let mut detail = format!("[{}] request {}: refusal traces differ with the position of the wrong character: reference (first wrong at {}) = {} steps; ", profile, q.label, probes[wrong[0]].first_wrong, base.steps);
+            let mut detail = format!("[{}] request {}: refusal traces differ with the position of the wrong character: reference (first wrong at {}, logging off) = {} steps; ", profile, q.label, probes[wrong[0]].first_wrong, base.steps);
             for (i, tr) in differing.iter().take(6) {
-                detail.push_str(&format!("first wrong at {} → {} steps (hash {:016x}); ", probes[*i].first_wrong, tr.steps, tr.hash));
+                detail.push_str(&format!("first wrong at {}{} → {} steps (hash {:016x}); ", probes[*i].first_wrong, if probes[*i].log_trace { " [trace logging]" } else { "" }, tr.steps, tr.hash));
             }
             let case = case_with_sig(q, 0, k, &probes[differing[0].0].presented);
             t.violate(Violation {
@@ -503,7 +573,7 @@ fn analyse(reqs: &[Req], probes: &[Probe], traces: &[Trace], profile: &str) -> S
                 signature: format!("instruction-trace|{}", profile),
                 detail,
                 case: Some(case),
-                extra: J::Arr(wrong.iter().map(|i| J::obj().set("first_wrong", J::i(probes[*i].first_wrong)).set("steps", J::i(traces[*i].steps as i64)).set("hash", J::s(format!("{:016x}", traces[*i].hash)))).collect()),
+                extra: J::Arr(wrong.iter().map(|i| J::obj().set("first_wrong", J::i(probes[*i].first_wrong)).set("trace_logging", J::Bool(probes[*i].log_trace)).set("steps", J::i(traces[*i].steps as i64)).set("hash", J::s(format!("{:016x}", traces[*i].hash)))).collect()),
                 known: None,
             });
         } else if differing.is_empty() {
@@ -519,6 +589,7 @@ fn analyse(reqs: &[Req], probes: &[Probe], traces: &[Trace], profile: &str) -> S
 fn main() {
     let args: Vec<String> = std::env::args().collect();
     sv::exec::install_panic_hook();
+    let _ = log::set_logger(&COUNT_LOGGER);
     log::set_max_level(log::LevelFilter::Off);
     if args.len() >= 2 && args[1] == "raw" {
         // used by the release-profile run to repeat a subset on another build profile
@@ -589,6 +660,7 @@ fn main() {
     }
     ctx.gate("requests whose refusal traces were all identical", tally.get("requests_with_identical_refusal_traces"), nreq as u64);
     ctx.gate("wrong-signature traces compared", tally.get("wrong_signature_traces_compared"), (nreq * (positions.len() + 1 + multi)) as u64);
+    ctx.gate("wrong-signature traces compared with a trace-level logger installed", tally.get("wrong_signature_traces_compared_with_trace_logging"), (nreq * (positions.len() + 1)) as u64);
     ctx.gate("sensitivity control (early-exit compare is position-dependent under the memcmp override)", tally.get("control_early_exit_compare_is_position_dependent"), nreq as u64);
     ctx.gate("determinism control (same probe, same trace)", tally.get("control_same_probe_same_trace"), nreq as u64);
     if tier == Tier::Thorough && std::env::var("VERIF_C07_EXTRA").is_ok() {
